@@ -299,6 +299,46 @@ fn order<T: Ord + Clone>(a: &T, b: &T) -> Vec<String> {
     vec![res_bool(a.clone().max(b.clone()) == *a), res_bool(a.clone().min(b.clone()) == *a)]
 }
 
+/// what `hist.pair` (and `histx.pair`, ops_extra.rs) print about two BigUint values
+pub fn observe_u(x: &BigUint, y: &BigUint) -> String {
+    let mut r = common(x, y);
+    r.push(res_bool(x.to_u32_digits() == y.to_u32_digits()));
+    r.push(res_bool(x.to_u64_digits() == y.to_u64_digits()));
+    r.push(res_bool(x.to_bytes_le() == y.to_bytes_le()));
+    r.push(res_bool(x.to_bytes_be() == y.to_bytes_be()));
+    r.push(res_bool(x.bits() == y.bits()));
+    r.push(res_bool(x.count_ones() == y.count_ones()));
+    r.push(res_bool(x.trailing_zeros() == y.trailing_zeros()));
+    r.push(res_bool(x.to_str_radix(10) == y.to_str_radix(10)));
+    r.push(res_bool(x.to_str_radix(16) == y.to_str_radix(16)));
+    r.extend(order(x, y));
+    r.push(res_bool(true));
+    r.push(res_bool(true));
+    r.push(res_u(x));
+    r.push(res_u(y));
+    format!("ok {}", r.join(" "))
+}
+/// the same for two BigInt values
+pub fn observe_i(x: &BigInt, y: &BigInt) -> String {
+    let mut r = common(x, y);
+    r.push(res_bool(x.to_u32_digits() == y.to_u32_digits()));
+    r.push(res_bool(x.to_u64_digits() == y.to_u64_digits()));
+    r.push(res_bool(x.to_bytes_le() == y.to_bytes_le()));
+    r.push(res_bool(x.to_bytes_be() == y.to_bytes_be()));
+    r.push(res_bool(x.to_signed_bytes_le() == y.to_signed_bytes_le()));
+    r.push(res_bool(x.to_signed_bytes_be() == y.to_signed_bytes_be()));
+    r.push(res_bool(x.bits() == y.bits()));
+    r.push(res_bool(x.trailing_zeros() == y.trailing_zeros()));
+    r.push(res_bool(x.to_str_radix(10) == y.to_str_radix(10)));
+    r.push(res_bool(x.to_str_radix(16) == y.to_str_radix(16)));
+    r.extend(order(x, y));
+    r.push(res_bool((x.sign() == Sign::NoSign) == x.is_zero()));
+    r.push(res_bool((y.sign() == Sign::NoSign) == y.is_zero()));
+    r.push(res_i(x));
+    r.push(res_i(y));
+    format!("ok {}", r.join(" "))
+}
+
 pub fn dispatch(op: &str, a: &[&str]) -> Option<String> {
     Some(match op {
         "hist.u" => {
@@ -316,22 +356,7 @@ pub fn dispatch(op: &str, a: &[&str]) -> Option<String> {
                 (Some(x), Some(y)) => (x, y),
                 _ => return Some("panic".to_string()),
             };
-            let mut r = common(&x, &y);
-            r.push(res_bool(x.to_u32_digits() == y.to_u32_digits()));
-            r.push(res_bool(x.to_u64_digits() == y.to_u64_digits()));
-            r.push(res_bool(x.to_bytes_le() == y.to_bytes_le()));
-            r.push(res_bool(x.to_bytes_be() == y.to_bytes_be()));
-            r.push(res_bool(x.bits() == y.bits()));
-            r.push(res_bool(x.count_ones() == y.count_ones()));
-            r.push(res_bool(x.trailing_zeros() == y.trailing_zeros()));
-            r.push(res_bool(x.to_str_radix(10) == y.to_str_radix(10)));
-            r.push(res_bool(x.to_str_radix(16) == y.to_str_radix(16)));
-            r.extend(order(&x, &y));
-            r.push(res_bool(true));
-            r.push(res_bool(true));
-            r.push(res_u(&x));
-            r.push(res_u(&y));
-            format!("ok {}", r.join(" "))
+            observe_u(&x, &y)
         }
         "hist.pair" => {
             let (_, x) = hist(|| ctor_i(a[1]), apply_i, res_i, a[2]);
@@ -340,23 +365,7 @@ pub fn dispatch(op: &str, a: &[&str]) -> Option<String> {
                 (Some(x), Some(y)) => (x, y),
                 _ => return Some("panic".to_string()),
             };
-            let mut r = common(&x, &y);
-            r.push(res_bool(x.to_u32_digits() == y.to_u32_digits()));
-            r.push(res_bool(x.to_u64_digits() == y.to_u64_digits()));
-            r.push(res_bool(x.to_bytes_le() == y.to_bytes_le()));
-            r.push(res_bool(x.to_bytes_be() == y.to_bytes_be()));
-            r.push(res_bool(x.to_signed_bytes_le() == y.to_signed_bytes_le()));
-            r.push(res_bool(x.to_signed_bytes_be() == y.to_signed_bytes_be()));
-            r.push(res_bool(x.bits() == y.bits()));
-            r.push(res_bool(x.trailing_zeros() == y.trailing_zeros()));
-            r.push(res_bool(x.to_str_radix(10) == y.to_str_radix(10)));
-            r.push(res_bool(x.to_str_radix(16) == y.to_str_radix(16)));
-            r.extend(order(&x, &y));
-            r.push(res_bool((x.sign() == Sign::NoSign) == x.is_zero()));
-            r.push(res_bool((y.sign() == Sign::NoSign) == y.is_zero()));
-            r.push(res_i(&x));
-            r.push(res_i(&y));
-            format!("ok {}", r.join(" "))
+            observe_i(&x, &y)
         }
         _ => return None,
     })
